@@ -10,7 +10,7 @@ NOT_YET = {
     'C13': 'SEMA unit under construction',
 }
 
-UNITS = ['types', 'sym', 'lex', 'parser']
+UNITS = ['types', 'sym', 'lex', 'parser', 'sema']
 
 PROPS = {
     'C20': dict(
